@@ -82,6 +82,11 @@ func NewEncryptedISO(f afero.File, data1 []byte, clearRegions bool) (*EncryptedI
 		return nil, fmt.Errorf("read unencrypted regions count failed: %w", err)
 	}
 
+	// region map must fit to first sector with header
+	if maxRegions := (sectorSize - sizeBytes(binary.Size(hdr))) / sizeBytes(binary.Size(unencryptedRegion{})); sizeBytes(hdr.Count) > maxRegions {
+		return nil, fmt.Errorf("unexpected unencrypted regions count (%d)", hdr.Count)
+	}
+
 	unencryptedRegions := make([]unencryptedRegion, hdr.Count)
 	err = binary.Read(f, binary.BigEndian, unencryptedRegions)
 	if err != nil {
